@@ -174,6 +174,31 @@ def work_wide(task):
     return acc.result()
 
 
+def work_huge(task):
+    """N*W beyond 256 (more than 65535 matrix entries, 8/16-bit index widths): dense seeded covariance"""
+    from vlib import lib
+    lib.load("nojit")
+    (N, W, scale, lam) = task
+    acc = Acc()
+    n = N * W
+    rng = np.random.default_rng(1000 + n)
+    A = rng.normal(size=(n, n + 40))
+    S = (A @ A.T) / (n + 40) * scale
+    S = (S + S.T) / 2
+    acc.n += 1
+    acc.nontrivial += 1
+    case = {"kind": "huge", "N": N, "W": W, "scale": scale, "lambda": lam}
+    try:
+        c = run_phase(N, W, [S], lam, 0).clusters[0]
+        msg = judge_mrf(c.train_inverse, c.log_determinant)
+    except Exception as e:
+        msg = f"optimisation phase raised {type(e).__name__}: {e}"
+    if msg:
+        acc.fail(case, f"(N,W)=({N},{W}), dense covariance x {scale}: {msg}")
+    acc.sample(case)
+    return acc.result()
+
+
 def work_eps(task):
     from vlib import lib
     lib.load("nojit")
@@ -242,6 +267,10 @@ def run(ctx):
     wide = [(N, W, var, lam) for (N, W) in ((40, 1), (8, 5)) for var in (1e12, 1e-12) for lam in (0.0, 0.11)]
     for r in ctx.pmap(work_wide, wide):
         ctx.take(r)
+    huge = [(N, W, sc, 0.11) for (N, W) in ((1, 260), (2, 130), (260, 1), (4, 65), (257, 1)) for sc in (1.0, 1e4)
+            if not (W == 1 and sc != 1.0)]       # W = 1 at the large scale runs its full 1000 iterations (minutes interpreted)
+    for r in ctx.pmap(work_huge, huge):
+        ctx.take(r)
     etasks = [(N, W, lam, cn) for (N, W) in ((2, 1), (1, 2), (3, 1), (1, 3)) + (((2, 2),) if ctx.thorough else ())
               for lam in (0.0, 0.11, 1.0) for cn in ("identity", "corr0.9", "duplicate", "constant")]
     for r in ctx.pmap(work_eps, etasks):
@@ -266,7 +295,7 @@ def run(ctx):
         "(a) S = D C D with per-sensor variances over every tuple of the listed alphabet per shape, C in "
         "{identity, 0.9 correlation, duplicated sensor (singular), constant sensor}, lambda in {0,1e-3,0.11,1}, "
         "through the real optimisation phase: MRF finite, exactly symmetric, Cholesky succeeds, stored "
-        "log-determinant finite and equal to 2*sum(log diag chol) within 1e-9 relative + 100 n cond(Theta) eps; (a') NW=40 at a common variance of 1e12 / 1e-12 (determinant outside the double range); (b) eps in {1e-12,1e-4,1e-2,0.5,10} "
+        "log-determinant finite and equal to 2*sum(log diag chol) within 1e-9 relative + 100 n cond(Theta) eps; (a'') N*W in {257, 260} in five factorisations, dense seeded covariance at scales 1 and 1e4 (W=1: scale 1 only); (a') NW=40 at a common variance of 1e12 / 1e-12 (determinant outside the double range); (b) eps in {1e-12,1e-4,1e-2,0.5,10} "
         "and eps == |entry| for every distinct entry of the eps=0 result: floored matrix bitwise equal to the "
         "reference filter; (c) every MRF and every float result field of enumerated main-loop runs incl. data "
         "sets with sensor variances 1e-12..1e12 (clusters with < 2 windows under the unbiased estimator are "
@@ -291,6 +320,8 @@ def replay(ctx, case):
         msg = judge_mrf(c.train_inverse, c.log_determinant)
         if msg:
             ctx.violation(case, msg)
+    elif case.get("kind") == "huge":
+        ctx.take(work_huge((case["N"], case["W"], case["scale"], case["lambda"])))
     elif case.get("kind") == "wide":
         ctx.take(work_wide((case["N"], case["W"], case["variance"], case["lambda"])))
     elif case.get("kind") == "eps":
